@@ -307,6 +307,7 @@ fn candidates(h: &History, v: &Violation) -> Vec<History> {
 pub fn shrink(ctx: &Ctx, h: &History, v: &Violation, budget: usize, work: &Path, rotate: usize) -> Shrunk {
     let mut cur = h.clone();
     inline_files(&mut cur);
+    crate::history::freeze_rand(&mut cur);
     let mut curv = v.clone();
     let mut tried = 0;
     let mut accepted = 0;
